@@ -103,6 +103,15 @@ CHECKS = {
         note='Mocked signatures are supplied on the stack; the tapscript weight is not compared for mocked checks; inside CHECKMULTISIG a listed key with another signature only needs to be "not accepted". '
              'Known finding C11-shared-signature (one signature listed for two keys) is probed once per run.',
         design='5/C11'),
+    'C12': dict(
+        technique='model-based property testing (Hypothesis) of the real REPL through pseudo-terminals: listing vs reference decoding, marker vs the operation a harness replay of the same history executes next',
+        text='Generated sessions (plain scripts with every push form incl. empty and 520-byte pushes, P2SH-shaped plain scripts, reference-signed legacy / P2SH / P2WSH / P2SH-P2WPKH spends, tapscript '
+             'spends with path length 0-5) are opened in the unmodified btcdeb REPL on ptys; `print` is issued initially and after every command of a generated step/rewind history. Every listing must equal '
+             'the reference decoding in execution order (section headers, commitment lines); the marked line and the line echoed by step/rewind must be the operation, script switch or commitment step '
+             'that the harness replay of the same history executes next; nothing may be marked when the session is done.',
+        note='Ground truth for "what executes next" is the harness (stepping itself is C01/C04). After a failing step nothing is asserted. Sessions the tool refuses to set up are skipped. '
+             'Three genuine defects found here were repaired by fix: commits (one of them a crash recorded under C15).',
+        design='5/C12'),
     'C13': dict(
         technique='round-trip and differential property-based testing (Hypothesis) against an independent transaction codec, with exhaustive truncation of each generated encoding',
         text='Transactions built by the reference encoder (0..253 inputs/outputs, script lengths across 252/253/65535/65536, witness present/absent/mixed, empty witness items, extreme '
